@@ -5,6 +5,8 @@ Shared line-protocol driver of the transaction / history model (C17, C18). Lines
 
   reset
   stmt <dry 0|1> <time> <clause> <clause> …      one KML statement → its outcome
+  activate                                       a (non-first) schema activation → `ok <seq> <environment version>`
+  envat <seq>                                    the environment version in force at the coordinate
   stage                                          where the last statement ended (diagnostic)
   dump                                           the whole store in canonical text
   asof <seq> | asofv <seq>                       every element as `element_at` reconstructs it at the coordinate (full / id,version,state)
@@ -142,7 +144,7 @@ def dump (s : Store) : String :=
   let journal := s.journal.reverse.map (fun e => s!"{e.seq}/{showStatus e.status}/{showChanges e.changes}")
   let vlog := s.vlog.reverse.map (fun v => s!"{showId v.id}/{v.version}/{v.seq}/{showOp v.op}")
   let next := ",".intercalate (Kind.all.map (fun k => toString (s.next k)))
-  s!"seq={s.seq} next={next} elems={join ";" elems} journal={join ";" journal} vlog={join ";" vlog}"
+  s!"seq={s.seq} env={s.envVersion} next={next} elems={join ";" elems} journal={join ";" journal} vlog={join ";" vlog}"
 
 def asOf (s : Store) (c : Nat) : String :=
   join ";" ((allIds s).filterMap (fun i => (elementAt s.vlog i c).map (fun v => showElem i v.elem)))
@@ -170,6 +172,11 @@ def step (d : DS) (line : String) : DS × String :=
           let r := exec d.s { dry := dry, clauses := cs, time := time }
           ({ s := r.1, last := some r.2 }, showOutcome r.2)
       | _, _, _ => (d, "bad-op")
+  | ["activate"] => ({ s := activate d.s, last := none }, s!"ok {d.s.seq + 1} {d.s.envVersion + 1}")
+  | ["envat", c] =>
+      match c.toNat? with
+      | some c => (d, toString (schemaVersionAt d.s.envs c))
+      | none => (d, "bad-op")
   | ["stage"] => (d, match d.last with | some o => showStage o | none => "-")
   | ["dump"] => (d, dump d.s)
   | ["asof", c] =>
